@@ -178,7 +178,13 @@ def run(prog, check):
         if isinstance(n, ast.Assign) and isinstance(n.targets[0], ast.Name) and isinstance(n.value, ast.Subscript) and \
                 isinstance(n.value.slice, ast.UnaryOp) and isinstance(n.value.slice.operand, ast.Constant):
             lastprev[n.targets[0].id] = (-n.value.slice.operand.value, n.value.value)
-    idx = sorted(v[0] for v in lastprev.values())
+    # points that are read without being given a name (e.g. passed straight on to an inlined helper)
+    named_nodes = {id(n.value) for n in ast.walk(loop) if isinstance(n, ast.Assign) and isinstance(n.value, ast.Subscript)}
+    for n in ast.walk(loop):
+        if isinstance(n, ast.Subscript) and id(n) not in named_nodes and isinstance(n.slice, ast.UnaryOp) and isinstance(n.slice.op, ast.USub) \
+                and isinstance(n.slice.operand, ast.Constant) and isinstance(n.slice.operand.value, int) and isinstance(n.ctx, ast.Load):
+            lastprev.setdefault('<%s>' % unparse(n), (-n.slice.operand.value, n.value))
+    idx = sorted({v[0] for v in lastprev.values()})
     check.ob('C15.R4', '%s::compares-last-two-points' % ss.key, idx == [-2, -1], '%s:%d' % (ss.module.rel, loop.lineno),
              'acceptance test reads indices %s of the series (required -1 and -2)' % idx, 'a series that still moves in its last period')
     for nm, (i, base) in sorted(lastprev.items()):
